@@ -154,6 +154,9 @@ def apply_changes(La, changes, viol, tag, include_trees=False):
     return R
 
 
+KIND = {0o100000: "file", 0o120000: "symlink", 0o160000: "gitlink", 0o040000: "dir"}
+
+
 def feature(La, Lb):
     f = set()
     for p in set(La) | set(Lb):
@@ -178,6 +181,46 @@ def feature(La, Lb):
     if dirs_a - dirs_b:
         f.add("dir-emptied")
     return "+".join(sorted(f)) or "identical"
+
+
+class ReadLog:
+    """Object store proxy that records which objects a diff reads (the pruning monitor)."""
+
+    def __init__(self, store):
+        self._s = store
+        self.reads = []
+
+    def __getitem__(self, k):
+        self.reads.append(k)
+        return self._s[k]
+
+    def __contains__(self, k):
+        return k in self._s
+
+    def __getattr__(self, n):
+        return getattr(self._s, n)
+
+
+def tree_dirs(store, tid, prefix=b""):
+    """directory path -> tree id, for every directory below (and including) the root"""
+    out = {prefix: tid}
+    for e in store[tid].iteritems():
+        if stat.S_ISDIR(e.mode):
+            out.update(tree_dirs(store, e.sha, (prefix + b"/" if prefix else b"") + e.path))
+    return out
+
+
+def must_not_be_read(store, ta, tb):
+    """Tree ids that sit only at or below a directory that is identical (same path, same id) in both trees: a diff that prunes
+    identical subtrees never needs any of them."""
+    da, db = tree_dirs(store, ta), tree_dirs(store, tb)
+    same = {d for d in da if d and db.get(d) == da[d]}
+
+    def covered(d):
+        return any(d == r or d.startswith(r + b"/") for r in same)
+    pruned = {da[d] for d in da if covered(d)} | {db[d] for d in db if covered(d)}
+    needed = {da[d] for d in da if not covered(d)} | {db[d] for d in db if not covered(d)}
+    return pruned - needed, len(same)
 
 
 def check_pair(store, blobs, La, Lb, viol, stats, rng, impl):
@@ -220,12 +263,24 @@ def check_pair(store, blobs, La, Lb, viol, stats, rng, impl):
             stats["reused_detector_diffs"] = stats.get("reused_detector_diffs", 0) + 1
         elif "rename_detector" in k2:
             k2["rename_detector"] = RenameDetector(store)
+        log = ReadLog(store)
+        if isinstance(k2.get("rename_detector"), RenameDetector) and kw.get("rename_detector") == "RD":
+            k2["rename_detector"] = RenameDetector(log)
         try:
-            ch = list(tree_changes(store, ta, tb, **k2))
+            ch = list(tree_changes(log, ta, tb, **k2))
         except Exception as e:
             viol.append({"sig": "C12/%s/raises-%s" % (tag, type(e).__name__), "La": repr(La)[:300], "Lb": repr(Lb)[:300]})
             continue
         stats["diffs"] = stats.get("diffs", 0) + 1
+        if not kw.get("want_unchanged") and kw.get("rename_detector") != "RD-reused" and ta != tb:
+            # pruning monitor: nothing at or below an identical subtree is read (with and without rename detection)
+            forbidden, nsame = must_not_be_read(store, ta, tb)
+            if nsame:
+                stats["diffs_with_identical_subtrees_watched"] = stats.get("diffs_with_identical_subtrees_watched", 0) + 1
+                bad = [r for r in log.reads if r in forbidden]
+                if bad:
+                    viol.append({"sig": "C12/%s/identical-subtree-not-pruned" % tag, "reads_below_identical_subtrees": len(bad),
+                                 "La": repr(La)[:300], "Lb": repr(Lb)[:300]})
         R = apply_changes(La, ch, viol, tag, include_trees=bool(kw.get("include_trees")))
         if R != Lb:
             viol.append({"sig": "C12/%s/applying-changes-to-a-does-not-give-b" % tag, "La": repr(La)[:300], "Lb": repr(Lb)[:300],
@@ -244,6 +299,21 @@ def check_pair(store, blobs, La, Lb, viol, stats, rng, impl):
                 for c in ch:
                     if c.old is not None and c.new is not None and c.old.path != c.new.path:
                         viol.append({"sig": "C12/%s/modify-with-different-paths" % tag})
+            # representation of a change at one path: a type change (what git's raw diff marks T) is a delete plus an add unless
+            # change_type_same asks for one entry; everything else is one modify
+            shape = {}
+            for c in ch:
+                for side, e in (("old", c.old), ("new", c.new)):
+                    if e is not None and e.path is not None:
+                        shape.setdefault(e.path, []).append((c.type, side))
+            for p_ in want_paths:
+                if p_ in La and p_ in Lb:
+                    typechg = stat.S_IFMT(La[p_][0]) != stat.S_IFMT(Lb[p_][0])
+                    exp = [("add", "new"), ("delete", "old")] if typechg and not kw.get("change_type_same") else [("modify", "new"), ("modify", "old")]
+                    if sorted(shape.get(p_, [])) != exp:
+                        viol.append({"sig": "C12/%s/%s-reported-as-%s/%s-to-%s" % (
+                            tag, "type-change" if typechg else "modification", "+".join(sorted(set(t_ for t_, _ in shape.get(p_, [])))) or "nothing",
+                            KIND.get(stat.S_IFMT(La[p_][0]), "other"), KIND.get(stat.S_IFMT(Lb[p_][0]), "other"))})
     # paths= filter vs reference diff restricted to the prefix
     for flt in rng.sample(sorted(set([b"a", b"a/b", b"a0", b"b", b"a.b", b"d"]) | set(La) | set(Lb)), 2):
         try:
